@@ -82,7 +82,7 @@ def main():
   if r.violated:
     chk.violation("design-level: %s violated in Validate.tla" % r.violated, {"tlc": r.out[-2500:]})
   obs, meta = [], []
-  ncase = 40 if args.tier == "quick" else 1200
+  ncase = 160 if args.tier == "quick" else 1500
   t0 = time.time()
   rng = np.random.default_rng(args.seed)
   tried = 0
